@@ -143,26 +143,44 @@ Theorem C11_edge_image_traversed_as_often_as_edge : forall p u v,
 Proof. exact expand_edge_count. Qed.
 Print Assumptions C11_edge_image_traversed_as_often_as_edge.
 
-(* ---- the clause the code violates (open finding remove_empty_drops_single_node) *)
-Definition C11_full_statement_remove_empty : Prop := remove_empty_keeps_routes_statement.
+(* ---- get_solution(remove_empty_paths / remove_empty_walks = True) in node mode.  The code as it is now
+   (since /repo 7b35658) decides emptiness on the INTERNAL route, so a route through a single node survives
+   with its weight.  The old behaviour (filter on the condensed route; finding
+   remove_empty_drops_single_node, fixed) is kept as [ne_node_solution_old] with its refutation. *)
+Theorem C11_full_statement_remove_empty : forall G gsrc gsnk (p : list string) (w : Z),
+  p <> [] -> (forall v, In v p -> ne_is_node G v = true /\ v <> gsrc /\ v <> gsnk) ->
+  ne_node_solution G gsrc gsnk [ne_expand_path p] [w] true = NE_Ok [(p, w)].
+Proof. exact remove_empty_keeps_routes. Qed.
+Print Assumptions C11_full_statement_remove_empty.
 
-Theorem C11_remove_empty_keeps_routes_refuted : ~ C11_full_statement_remove_empty.
-Proof. exact remove_empty_keeps_routes_refuted. Qed.
-Print Assumptions C11_remove_empty_keeps_routes_refuted.
+Theorem C11_solution_without_filter : forall G gsrc gsnk ps ws,
+  (forall p v, In p ps -> In v p -> ne_is_node G v = true /\ v <> gsrc /\ v <> gsnk) ->
+  ne_node_solution G gsrc gsnk (map ne_expand_path ps) ws false = NE_Ok (combine ps ws).
+Proof. exact node_solution_no_filter. Qed.
+Print Assumptions C11_solution_without_filter.
 
-Theorem C11_remove_empty_drops_single_node_refuted :
+Theorem C11_solution_filter_drops_exactly_empty_routes : forall G gsrc gsnk ps ws,
+  (forall p v, In p ps -> In v p -> ne_is_node G v = true /\ v <> gsrc /\ v <> gsnk) ->
+  ne_node_solution G gsrc gsnk (map ne_expand_path ps) ws true =
+  NE_Ok (filter (fun pw => negb (Nat.eqb (List.length (fst pw)) 0)) (combine ps ws)).
+Proof. exact node_solution_filter. Qed.
+Print Assumptions C11_solution_filter_drops_exactly_empty_routes.
+
+Theorem C11_old_remove_empty_keeps_routes_refuted : ~ remove_empty_keeps_routes_statement ne_node_solution_old.
+Proof. exact remove_empty_old_keeps_routes_refuted. Qed.
+Print Assumptions C11_old_remove_empty_keeps_routes_refuted.
+
+Theorem C11_old_remove_empty_drops_single_node_refuted :
   exists G gsrc gsnk internal weights,
     internal = map ne_expand_path [["a"]] /\ weights = [5%Z] /\
-    ne_node_solution G gsrc gsnk internal weights false = NE_Ok [(["a"], 5%Z)] /\
-    ne_node_solution G gsrc gsnk internal weights true = NE_Ok [].
-Proof. exact remove_empty_drops_single_node_refuted. Qed.
-Print Assumptions C11_remove_empty_drops_single_node_refuted.
+    ne_node_solution_old G gsrc gsnk internal weights false = NE_Ok [(["a"], 5%Z)] /\
+    ne_node_solution_old G gsrc gsnk internal weights true = NE_Ok [].
+Proof. exact remove_empty_old_drops_single_node_refuted. Qed.
+Print Assumptions C11_old_remove_empty_drops_single_node_refuted.
 
-Theorem C11_remove_empty_keeps_routes_partial : forall G gsrc gsnk p w,
-  2 <= List.length p -> (forall v, In v p -> ne_is_node G v = true /\ v <> gsrc /\ v <> gsnk) ->
-  ne_node_solution G gsrc gsnk [ne_expand_path p] [w] true = NE_Ok [(p, w)].
-Proof. exact remove_empty_keeps_long_routes. Qed.
-Print Assumptions C11_remove_empty_keeps_routes_partial.
+Example C11_nonvacuous_single_node_route_kept :
+  ne_node_solution ne_G1 "source1" "sink1" [["a.0"; "a.1"]; []] [5%Z; 0%Z] true = NE_Ok [(["a"], 5%Z)].
+Proof. vm_compute. reflexivity. Qed.
 
 (* ---- non-vacuity: a concrete graph (insertion order b, a; edge a -> b; b lacks the attribute; node
    named "a.0" next to "a") run through the whole constructor; the hypotheses of the theorems hold. *)
